@@ -186,6 +186,21 @@ impl ElementMap for TransformerContext {
     }
 
     fn get_element_bbox(&self, el: &SvgElement) -> Result<Option<BoundingBox>> {
+        self.element_bbox_clipped(el, 0)
+    }
+}
+
+/// Maximum length of a chain of clip-path references (a clipPath element may itself
+/// be clipped); bounds the recursion and catches reference cycles.
+const CLIP_PATH_CHAIN_LIMIT: u32 = 16;
+
+impl TransformerContext {
+    fn element_bbox_clipped(&self, el: &SvgElement, clip_depth: u32) -> Result<Option<BoundingBox>> {
+        if clip_depth > CLIP_PATH_CHAIN_LIMIT {
+            return Err(SvgdxError::CircularRefError(format!(
+                "clip-path chain through {el} is circular or longer than {CLIP_PATH_CHAIN_LIMIT}"
+            )));
+        }
         // a `use` / `reuse` takes its bbox from the element it refers to; its own
         // placement must be resolved as well before that can be translated.
         el.ensure_positioned()?;
@@ -218,7 +233,7 @@ impl ElementMap for TransformerContext {
                 .get_element(&clip_id)
                 .ok_or(SvgdxError::ReferenceError(clip_id))?;
             if let ("clipPath", Some(clip_bbox)) =
-                (clip_el.name.as_str(), self.get_element_bbox(clip_el)?)
+                (clip_el.name.as_str(), self.element_bbox_clipped(clip_el, clip_depth + 1)?)
             {
                 el_bbox = bbox.intersect(&clip_bbox);
             }
